@@ -345,10 +345,6 @@ Proof.
 Qed.
 
 (* ---------- failed / abandoned / duplicate writes release their reservation ---------- *)
-Definition present (name : N) (y : sys) : bool :=
-  match findE name (c_ents (s_c y)) with Some _ => true | None => false end.
-Definition wt_succeeds (y : sys) (name sz : N) (w : wres) : bool :=
-  match w with WData len => N.eqb len sz && negb (present name y) | WErr => false end.
 
 Lemma prelease_need c pend' t sz :
   pstep true (mkS c ((t, NeedRelease sz) :: pend')) (PRelease t) =
